@@ -169,8 +169,8 @@ struct Child {
 fn spawn_child(cfg: &SweepCfg, slot: usize) -> Child {
     let shm_path = crate::scratch_root().join(format!("sweep-{}-{slot}.shm", cfg.name));
     let shm = Shm::create(shm_path.clone());
-    let exe = std::env::current_exe().unwrap_or_else(|e| crate::machinery_error(&format!("{e}")));
-    let mut cmd = Command::new(exe);
+    // /proc/self/exe keeps working when the binary is rebuilt during a run
+    let mut cmd = Command::new(crate::self_exe());
     cmd.args(std::env::args().skip(1))
         .env("VERIF_WORKER", &cfg.name)
         .env("VERIF_WORKER_ARG", &cfg.arg)
@@ -198,6 +198,8 @@ fn spawn_child(cfg: &SweepCfg, slot: usize) -> Child {
                 rlim_max: 0,
             };
             libc::setrlimit(libc::RLIMIT_CORE, &core);
+            // do not outlive the parent (a machinery error must not leave a hung worker behind)
+            libc::prctl(libc::PR_SET_PDEATHSIG, libc::SIGKILL);
             Ok(())
         });
     }
@@ -273,7 +275,7 @@ pub fn run_sweep(cfg: &SweepCfg) -> SweepResult {
                                         last_seen = cur;
                                         last_change = Instant::now();
                                     } else if last_change.elapsed().as_millis() as u64
-                                        > cfg.case_timeout_ms
+                                        > if cur == 0 { cfg.case_timeout_ms.max(60_000) } else { cfg.case_timeout_ms }
                                     {
                                         break Err(Abnormal::Hang);
                                     }
